@@ -34,6 +34,8 @@ def trait_src(d):
             lines.append("        #[skip_func]")
         lines.append("        fn %s(%s%s) -> %s%s" % (m["name"], RECV[m["recv"]], args, ty(m["ret"]), body))
     lines.append("    }")
+    # LayoutCheck!Reach "via_return": a root whose method returns an object of the (edited) trait
+    lines.append("    #[cglue_trait]\n    pub trait Outer {\n        #[wrap_with_obj(T)]\n        type Ret: T + 'static;\n        fn get(&self) -> Self::Ret;\n    }")
     return "\n".join(lines)
 
 
@@ -67,6 +69,10 @@ def main():
     src.append("fn main() {\n    let mut out: Vec<String> = vec![];\n    let b = <base::TBox<'static> as StableAbi>::LAYOUT;\n    let gb = <gbase::GBox<'static> as StableAbi>::LAYOUT;\n")
     for t in traits:
         src.append("    out.push(format!(\"{{\\\"kind\\\":\\\"trait\\\",\\\"name\\\":\\\"%s\\\",\\\"got\\\":\\\"{}\\\",\\\"rev\\\":\\\"{}\\\"}}\", v(compare_layouts(Some(b), Some(<e_%s::TBox<'static> as StableAbi>::LAYOUT))), v(compare_layouts(Some(<e_%s::TBox<'static> as StableAbi>::LAYOUT), Some(b)))));\n" % (t["name"], t["name"], t["name"]))
+    if "via_return" in data.get("reach", []):
+        src.append("    let ob = <base::OuterBox<'static> as StableAbi>::LAYOUT;\n")
+        for t in traits:
+            src.append("    out.push(format!(\"{{\\\"kind\\\":\\\"trait\\\",\\\"via\\\":\\\"return\\\",\\\"name\\\":\\\"%s\\\",\\\"got\\\":\\\"{}\\\",\\\"rev\\\":\\\"{}\\\"}}\", v(compare_layouts(Some(ob), Some(<e_%s::OuterBox<'static> as StableAbi>::LAYOUT))), v(compare_layouts(Some(<e_%s::OuterBox<'static> as StableAbi>::LAYOUT), Some(ob)))));\n" % (t["name"], t["name"], t["name"]))
     for g in groups:
         src.append("    out.push(format!(\"{{\\\"kind\\\":\\\"group\\\",\\\"name\\\":\\\"%s\\\",\\\"got\\\":\\\"{}\\\",\\\"rev\\\":\\\"{}\\\"}}\", v(compare_layouts(Some(gb), Some(<g_%s::GBox<'static> as StableAbi>::LAYOUT))), v(compare_layouts(Some(<g_%s::GBox<'static> as StableAbi>::LAYOUT), Some(gb)))));\n" % (g["name"], g["name"], g["name"]))
     src.append("    out.push(format!(\"{{\\\"kind\\\":\\\"none\\\",\\\"name\\\":\\\"none_some\\\",\\\"got\\\":\\\"{}\\\"}}\", v(compare_layouts(None, Some(b)))));\n")
